@@ -170,6 +170,71 @@ CLAIMS = {
         design="§5-C19", technique="Lean 4 proof over registry model + per-process differential correspondence"),
 }
 
+# ---- additions of the third session (appended to the claim texts above; DESIGN.md §0 has the details)
+EXT = {
+    'C01': "Added: message and record classes declared by inheritance from registered classes (Model/BinInherit, Props/C01Inherit: the encoding depends on the "
+           "class's own id and field list only), class families with the order of first use varied in the correspondence.",
+    'C02': "Added: Extracted.arrayElemTable (576 rows: endian attribute x 8 declaration forms x every datatype id and enum bases, read through the real Parser, element "
+           "type probed behaviourally), Model/ParserDecl and Props/C02Decl (decide over the whole table); real bytes of every generated array type vs the Lean layout.",
+    'C03': "Added: bursts of 66-520 frames per poll, received packets up to the protocol maximum (payloads >= 32767 bytes: /repo d656a66), streams run through a "
+           "session and its transport (pause_reading/resume_reading honoured), embedded look-alike packets cut exactly at their boundaries.",
+    'C04': "Added: the second stage (ITCH/OUCH/SQF/ASN.1 application sessions: decode + own queue) is in the model (Model/AppSession.lean, a product with the "
+           "unchanged session machine); Props/C04App: what the application consumer gets is a subsequence of, and without a late cancel a prefix of, decode applied "
+           "to the decodable messages on the wire, both consumer modes, falsy values included; every application scenario (4 kinds, real compiled ASN.1 spec) is "
+           "replayed event by event through the model. Props/C04Bytes: refinement from the byte-level reader (C03 model) to the token-level reader of the session "
+           "machine, so the prefix/subsequence theorems are stated over the BYTES received.",
+    'C05': "Added: the application-session layer is in the model (Model/AppSession.lean); Props/C05App (15 theorems): application close callback at most once and "
+           "exactly once on completion, after the transport close, closed semantics, close() idempotent and returning at once from the close callback, no deadlock "
+           "through _on_soup_close (lifted from C05_close_never_deadlocks), callers released; the known finding (close() awaited from the application message "
+           "callback) is the explicit hypothesis of C05App_close_never_raises_partial with decided witnesses; one further defect found there and repaired (/repo 7eb8348).",
+    'C06': "Added: Props/C06App (second queue stopped, its dispatcher and helper done, blocked receive released with EndOfQueue, no application callback after close).",
+    'C07': "Added: byte-level theorems for both readers over EVERY byte string (Props/C07Framing: a poll stops the reader, waits as announced or consumes a non-empty "
+           "frame; the reader settles within len(buffer) polls; negative / zero / padded BodyLength included); Props/C07Bytes ties them to the session machine. The "
+           "correspondence now drives ~150 malformed/extreme frame classes x {soup client, soup server, FIX} x {before, after login} and hostile application payloads "
+           "on ITCH/OUCH/SQF sessions, with a CPU-time bound per frame (/repo 1a01534: group count blow-up).",
+    'C08': "Added: sends the library rejects (validation or encode failure) are events of the model (Ev.sendFailed); Props/C08Failed: failed sends are erasable from "
+           "any history, the gap bound and the heartbeat-at-tick characterisation hold with them.",
+    'C09': "Added: a blocked event loop / late ticks (Model/MonitorLate, Props/C09Late: every check window is at least one interval because the next sleep starts at "
+           "the late check; a live peer is never dropped under any hold-ups); the virtual loop can be held up from inside a callback.",
+    'C10': "Added: encode failures per segment (header field, header group instance, trailer, body): Model/SeqSeg, Props/C10Seg, Witness/C10Seg.",
+    'C11': "Replaced the partial claim: every clause of the two-outcome statement is now a theorem over all event lists from the fresh session (Props/C11Trace, 15 "
+           "theorems: outcomes; cancelled only on request; state error only when dispatching; request before reply and first write; active => acceptance consumed, "
+           "no callback and no transport close before, heartbeats running; refused/cancelled => closed for good and C05/C06 clean-up; any other reply or an "
+           "acceptance on a closing session refused). The real connectors of soup, FIX and the four application layers are driven through a replaced "
+           "create_connection with every connector parameter varied (harness/login_app.py, oracle only); FIX sessions are part of the step-log replay.",
+    'C12': "Added: Props/C12Table — the outcome of SoupMessage.from_bytes for all 256 type bytes x lengths x fillers, extracted from the running library on every "
+           "run, equals the model on EVERY row (decide +kernel; exactly the registered indicators are known); Props/C12Long (received packets of every legal length "
+           "decode byte-exact: /repo d656a66); Props/C12Obj (re-encode histories on one packet object); Props/C12Any (every packet the library can build); "
+           "Props/C12Py (str.isspace exact for every code point, int(bytes), int(str), strip tables extracted from the interpreter).",
+    'C13': "Added: Props/C13Anchor — the hypothesis 'MsgType is the first header field assigned' is gone (anchored lookup, /repo a2cfe01; tags ending in 35 and values "
+           "containing '35=' covered); Props/C13Shared — dictionaries whose groups share tags with their surroundings where the count ends the group; values over the "
+           "whole FIX alphabet (LF, CR, controls) in the correspondence; group count without instances rejected (/repo 1a01534).",
+    'C14': "Added: Props/C14Anchor (any version string) and Props/C14Echo — the hypothesis that the sent message holds none of the framing fields is now a theorem "
+           "about every sent message (the session removes 8/9/35/10 a message carries: /repo b25d247, found because the proof had forced that hypothesis), so the "
+           "frame decodes to what was sent for EVERY message; one message in four of the correspondence carries framing fields of its own.",
+    'C16': "Added: dictionaries generated in interleaved groups in one process (construct/generate phases), the four version type tables asked for in all 24 orders.",
+    'C17': "Added: option-change histories (every option of every generator) with the version type tables as process state (Props/C17Opts) and histories at the "
+           "granularity of the generator API (construct k / generate k with the context captured at construction and list aliasing; Props/C17Phases: generate k "
+           "depends only on spec k and its options for every interleaving), with decided witnesses for the cached-table and clear-in-place semantics.",
+    'C18': "Added: declared defaults on record-typed, 1-D and 2-D array fields (deep copy on read, /repo c3c2285), Props/C18Defaults; encode-before-mutate histories.",
+}
+TECH = {
+    'C11': "Lean 4 trace-level invariant proofs over the session state machine + step-log replay correspondence (soup and FIX) + connector scenarios on the real connect_async entry points",
+    'C12': "Lean 4 proof over executable model + complete extracted probe table (decide +kernel) + differential correspondence with soup/core.py",
+    'C02': "Lean 4 proof encode = documented layout + per-run extracted type / array count / array element tables (decide) + byte-exact differential check",
+    'C04': "Lean 4 invariant proofs over the task-level session machine and its product with the application layer + byte-to-token refinement + step-log replay correspondence",
+    'C05': "Lean 4 invariant proofs over the task-level session machine and its product with the application layer + step-log replay correspondence",
+    'C06': "Lean 4 invariant proofs over the task-level session machine and its product with the application layer + step-log replay correspondence",
+    'C07': "Lean 4 invariant proofs over the session machine + byte-level progress theorems for both readers + step-log / reader-log replay correspondence",
+}
+for _p, _t in EXT.items():
+    CLAIMS[_p]['text'] = CLAIMS[_p]['text'].replace(
+        " Partial: the two-outcome statement is a family of step theorems rather than one trace theorem; the connectors of the four application layers are exercised by the oracle only.", "").replace(
+        " Completion (deadlock freedom) is covered by the scenario oracle; application-session layer (ITCH/OUCH/SQF/ASN.1) is exercised by the oracle only.",
+        " Completion: C05_close_never_deadlocks (a definite task can always take the next step of a started close).") + ' ' + _t
+for _p, _t in TECH.items():
+    CLAIMS[_p]['technique'] = _t
+
 PENDING_REASON = "check not built yet in this round (work in progress; see DESIGN.md §8) — not claimed until its model, theorems and correspondence exist"
 
 
